@@ -514,8 +514,12 @@ Record ostep := mkOStep {
   o_raised : bool;               (* the call raised an exception *)
   o_ret : oret;
   o_state : cstate;              (* canonical form of all builders after the call *)
-  o_same_objects : bool          (* every builder existing before the call still reaches
+  o_same_objects : bool;         (* every builder existing before the call still reaches
                                     exactly the same node objects in the same order *)
+  o_others_same : bool           (* deep snapshot (node objects, names, params, uid values, parent
+                                    objects, heads) of every builder existing before the call other
+                                    than the one the method was called on - of every builder for
+                                    to_nodes / build / merge - is unchanged *)
 }.
 
 (* model side of one observed step; Build is performed twice like the harness does *)
@@ -582,6 +586,7 @@ Fixpoint agree_from (st : state) (cs : list call) (obs : list ostep) : bool :=
               negb (o_raised o) && oret_eqb mr (o_ret o) &&
               match canon_state st2 with Some cs2 => cstate_eqb cs2 (o_state o) | None => false end &&
               Bool.eqb (same_objects_b st st2) (o_same_objects o) &&
+              o_others_same o &&      (* theorems: pure calls touch nothing, builders share no node *)
               agree_from st2 cs' obs'
           end
       end
@@ -594,6 +599,15 @@ Definition agree (k : nat) (cs : list call) (obs : list ostep) : bool := agree_f
 (* ---- the property's clauses on the OBSERVED behaviour (independent of the model's answer) *)
 Definition pure_call (c : call) : bool :=
   match c with ToNodes _ | Build _ | Merge _ _ => true | _ => false end.
+
+(* the builder object a chainable method was called on (these methods document `:return: self`) *)
+Definition chain_target (c : call) : option nat :=
+  match c with
+  | AddNode b _ _ _ | AddSequence b _ _ | GrowBranches b _ | AddBranch b _ _
+  | AddSkip b _ _ _ _ | JoinBranches b _ _ => Some b
+  | _ => None
+  end.
+Definition is_self (r : oret) : bool := match r with ORSelf => true | _ => false end.
 
 Definition graph_ok (g : list cnode) : bool := wf_b g && acyclic_b g.
 
@@ -616,6 +630,12 @@ Fixpoint holds_from (prev : cstate) (cs : list call) (obs : list ostep) : bool :
       negb (o_raised o) &&
       graph_ok (fst (o_state o)) &&
       ret_ok (o_ret o) &&
+      o_others_same o &&
+      (* a chainable method returns the builder, else the next chained call would raise *)
+      match chain_target c with
+      | Some b => if b <? length (snd prev) then is_self (o_ret o) else true
+      | None => true
+      end &&
       (if pure_call c
        then o_same_objects o &&
             all2 list_eqb (snd prev) (heads_prefix (length (snd prev)) (o_state o)) &&
